@@ -25,7 +25,7 @@
    tasks with EQUAL trigger times leave is implementation-defined and not an observable.
 
    Definitions only; proofs are in proofs/DelayedProofs.v. *)
-From Got Require Import Base.
+From Got Require Import Base Heap.
 Require Import Permutation.
 Local Open Scope Z_scope.
 
@@ -330,8 +330,23 @@ Definition dl_le (a b : dl_task) : Prop := dl_trig a <= dl_trig b.
 Definition dl_placed_on (q : Z) (os : list dl_out) : list dl_task :=
   map fst (filter (fun x => dl_q (fst x) =? q) (dl_placed os)).
 
-(* instance selector for the extracted driver *)
-Definition dl_pick (front : bool) : dl_pq_impl := if front then dl_sorted_pq_front else dl_sorted_pq.
+(* the faithful instance: std.PriorityQueue = container/heap (coq/lib/Heap.v: hp_push = heap.Push
+   (append + up), hp_pop = heap.Pop (swap 0,n-1; down; remove last), hp_top = s[0]) with
+   taskDelayed.Less.  A heap.Push/Pop that panics or runs out of fuel leaves the array unchanged /
+   yields no element; neither happens on a heap (DelayedProofs.dl_heap_pq_ok). *)
+Definition dl_heap_pq : dl_pq_impl :=
+  {| pq_t := list dl_task;
+     pq_empty := [];
+     pq_push := fun t l => match hp_push dl_less l t with HpOk l' => l' | _ => l end;
+     pq_top := fun l => hp_top l;
+     pq_pop := fun l => match hp_pop dl_less l with HpOk (l', m) => Some (m, l') | _ => None end;
+     pq_len := @length dl_task;
+     pq_elems := fun l => l |}.
+
+(* instance selector for the extracted driver: 0 sorted list, 1 sorted list with the opposite
+   tie order, 2 container/heap *)
+Definition dl_pick (k : nat) : dl_pq_impl :=
+  match k with O => dl_sorted_pq | S O => dl_sorted_pq_front | _ => dl_heap_pq end.
 Definition dl_pq_size (I : dl_pq_impl) (s : dl_state I) : nat := pq_len I (dl_pq s).
 Definition dl_is_blocked (I : dl_pq_impl) (s : dl_state I) : bool :=
   match dl_wait s with [] => false | _ => true end.
